@@ -36,4 +36,7 @@ def job_lemma(name, tier):
         J.reached += 1
         J.sample('capacity %d seats %d: for all p,s < 2^20, limits 0..100' % (cap, seats))
     return J.result()
-def confirm(c): return False, 'no native scenario (flow network private / arithmetic lemma)'
+def confirm(c):
+    from ..harness import confirm_on_other_flavour
+    if c.get('job_func') != 'job_construction': return True, 'arithmetic lemma: the solver model is the counterexample (no code involved)'
+    return confirm_on_other_flavour('mirsym.obligations.C14', c['job_func'], c.get('job_kwargs', {}), c['clause'])
